@@ -181,7 +181,12 @@ def run(ctx):
            "ops": [{"op": "create", "at": "e\u0301", "h": ["md5"], "now": "2026-03-01 12:00:00"}, {"op": "create", "at": "", "h": ["md5"], "now": "2026-03-01 12:00:01"},
                    {"op": "create", "at": "", "h": ["c4"], "now": "2026-03-01 12:00:02"}, {"op": "verify", "at": ""}, {"op": "info", "at": ""}]}
     scs.insert(0, nfd)
-    return _scn.run_scn(ctx, scs, M.m_c06, extra_fails=utc_name_cases() + interrupted_runs(ctx) + day_change_cases(ctx), extra_diffs=write_order_cases(ctx), assumptions=["the clock is the injected one (freezegun); several runs share a clock second on purpose"])
+    # the civil-date rendering of the name (MhlModel/Civil.lean): model vs datetime arithmetic, and vs the names the real
+    # create gives under a frozen clock
+    from .. import civil_case
+    lib_d, lib_n = civil_case.library(ctx.seed, ctx.scale(2000, 60000))
+    cl_f, cl_d, cl_n = civil_case.command_line(ctx.seed, ctx.scale(10, 150))
+    return _scn.run_scn(ctx, scs, M.m_c06, extra_fails=utc_name_cases() + interrupted_runs(ctx) + day_change_cases(ctx) + cl_f, extra_diffs=write_order_cases(ctx) + lib_d + cl_d, extra_cov={"civil_dates": {"library_cases": lib_n, "command_line_cases": cl_n}}, assumptions=["the clock is the injected one (freezegun); several runs share a clock second on purpose"])
 
 
 def replay(ctx, path):
